@@ -37,6 +37,9 @@ pub fn minimise(chk: &dyn Check, case: &Case, sig: &str, budget_s: f64) -> (Case
             if t0.elapsed().as_secs_f64() > budget_s {
                 break 'outer;
             }
+            if c.kind == best.kind && c.data == best.data {
+                continue;
+            }
             tried += 1;
             if let Some(v) = fails_with(chk, &c, sig) {
                 best = c;
